@@ -33,6 +33,7 @@ func init() { register("C03", checkC03) }
 
 var fuMutants = []map[string]string{
 	{"Trunc32": `"as16"`}, {"U64Path": `"signed"`}, {"TimeRange": `"wide"`}, {"AnyOrder": `"errorFirst"`}, {"EqualsImpl": `"prefix"`}, {"NilPtr": `"zero"`},
+	{"ZoneKey": `"name"`}, {"SliceUse": `"compact"`},
 }
 
 type fuRows struct {
